@@ -555,5 +555,15 @@ func c07decOnce(c caseC07dec, o *gen.Obs) error {
 	if acc.Equal(s) != 1 {
 		return gen.Fail("Decode/horner", "decoded %x differs from its Horner reconstruction %x", data, acc.Encode())
 	}
+	// the input buffer belongs to the caller, who re-uses it: the decoded object keeps its value
+	if !isTextVia(c.Via) && len(data) <= 1<<16 {
+		want := append([]byte(nil), data...)
+		for i := range data {
+			data[i] ^= 0xA5
+		}
+		if got := s.Encode(); !bytes.Equal(got, want) || !bytes.Equal(s.Copy().Encode(), want) {
+			return gen.Fail("Decode/keeps-input-slice", "after the caller overwrote the buffer it had passed to %s, the decoded scalar encodes to %x instead of %x", c.Via, got, want)
+		}
+	}
 	return nil
 }
